@@ -289,14 +289,20 @@ def main():
         l1, l0 = m, None
         if ' ;; ' in m:
             l1, l0 = m.split(' ;; ', 1)
+        l1_all = l1
         for name, _, _ in PROFILES:
             o = impl[name][i]
+            # a profile-specific model output: `<release output> ## <dbgchk output>` (debug assertions /
+            # overflow checks make the two builds differ only where the model says so)
+            if ' ## ' in l1_all:
+                l1 = l1_all.split(' ## ')[0 if name == 'release' else 1]
             if canon:
                 oc, c1, c0 = canon(line, o), canon(line, l1), (canon(line, l0) if l0 is not None else None)
             else:
                 oc, c1, c0 = o, l1, l0
             want = c0 if c0 is not None else c1     # what the property demands on this line
-            if oc != want:
+            # a spec may allow alternatives: `alt1 || alt2`
+            if oc not in want.split(' || '):
                 rec = dict(line=line, impl=o, model=l1, profile=name)
                 if l0 is not None:
                     rec['spec'] = l0
@@ -308,7 +314,7 @@ def main():
                     hookbreak.append(rec)
                 else:
                     viol.append(rec)
-            elif c0 is not None and oc != c1:
+            elif c0 is not None and oc != c1 and ' || ' not in c0:
                 # behaviour is right here but the limb-level model no longer mirrors the code
                 hookbreak.append(dict(line=line, impl=o, model=l1, spec=l0, profile=name, kind='L1 model differs from implementation (implementation agrees with spec L0)'))
         if impl['release'][i] != impl['dbgchk'][i]:
